@@ -5,6 +5,24 @@ V = os.path.dirname(os.path.dirname(os.path.abspath(__file__)))
 props = [json.loads(l) for l in open(os.path.join(V, "properties.jsonl"))]
 
 CLAIMS = {
+ "C15": dict(
+  technique="Lean 4 invariant proofs about a byte-exact allocation model (free lists hold exactly free sectors, each once; an allocation with a non-empty free list reuses a freed sector and leaves the file length alone; freeing a chain returns every sector; same for mini sectors) + lock-step of API histories comparing the complete file image and allocator caches after every call + cycle oracle on the implementation's file length",
+  text="Proof: CfbVerif.Props.C15 — FatInv holds in a fresh file (C15_inv_create) and is kept by allocation and release; C15_sector_reuse (no growth while the free list is non-empty, the sector handed out was FREE), C15_release (every sector of a freed chain lands on the free list), C15_mini_reuse (a really free mini sector is reused, neither mini stream nor file grows), C15_cycle_partial (release then allocate does not grow). "
+       "Tie: Phys is a table-level port of alloc.rs/minialloc.rs/chain.rs/minichain.rs/stream.rs rendered to bytes; the rendered image (len + FNV-64) and the caches equal the real ones after every call of every generated history; net-zero cycles of 6 shapes are repeated 3-4 times after random prefixes and judged on the real file length.",
+  note="The whole-cycle statement is not a theorem (decided per history). Known finding F16: growth confined to the second repetition when the first one moved data into the never-shrinking mini container. Trusted: Lean kernel, standard axioms, translator, hooks H2/H3, harness generators.",
+  design="§3 C15"),
+ "C08": dict(
+  technique="Lean 4 proofs at two levels: handle level (set_len = cut or pad with zeros, from the C06 refinement; every grown byte is 0, kept bytes are kept) and allocation level (reused sectors are wiped by init_sector, the tail of the old last (mini) sector is overwritten or the position lies in a freshly allocated sector) + byte-exact lock-step of the allocation model and a read-back oracle after every set_len",
+  text="Proof: CfbVerif.Props.C08 — C08_handle, C08_grown_bytes_zero, C08_kept_bytes, C08_reused_sector_zero, C08_new_sector_zero, C08_tail_or_fresh, C08_setLen_log (the log of store operations of a handle call reproduces the handle model's store: stepDL_store). "
+       "Tie: histories dominated by set_len to lengths around the current one (±70, multiples of 64/512/4096, +1, half), with removals freeing sectors that are reused, reopen in between; after every set_len the whole stream is read back through the handle and compared with the abstract content; image and caches compared after every call.",
+  note="That the sector level stores the handle level's byte list is lock-step (byte-exact image) and oracle, not a theorem. Trusted base as C15.",
+  design="§3 C08"),
+ "C02": dict(
+  technique="Lean 4 proofs about the two-level API model (results are a function of the logical state only, so they are identical on the live and the reopened file; the rendered image is a function of the tables and ignores the caches open rebuilds; little-endian field codec round trip between renderer and reader model) + lock-step comparing the model's rendered image with the library's backing bytes after EVERY call without flush + reopen oracle (both modes, full dump) at sampled quiescent boundaries",
+  text="Proof: CfbVerif.Props.C02 — C02_image_ignores_caches, C02_results_ignore_layout, C02_state_ignores_layout, C02_continue_same, C02_le_roundtrip, leN_pushLE_frame. "
+       "Tie: the model is write-through by construction; its image (header, FAT, DIFAT, MiniFAT, directory, data incl. stale sectors) equals the real backing bytes after every call of every history in both versions, so a postponed or forgotten write shows at the first boundary; the real bytes are additionally opened with open and open_strict at sampled boundaries and compared with the live dump; 10% of calls are reopen and the history continues.",
+  note="That every rendered image reopens to the logical state is decided per boundary (library + Raw reader on snapshots), not proved for all states. Trusted base as C15.",
+  design="§3 C02"),
  "C06": dict(
   technique="Lean 4 refinement proof (Handle window state machine ⊑ byte vector with cursor, induction over call sequences, all buffer sizes) + lock-step differential replay of handle scripts (results and window fields) against the real Stream",
   text="Proof: CfbVerif.Props.C06 — every primitive call of the handle model refines the Vec-cursor specification and keeps the window invariant (C06_step), lifted to all call sequences (C06_run), exact output equality for read_to_end/write_all/seek/set_len/flush/len scripts for every max_buffer_size and initial content (C06_histories, C06_bufsize_indep), seek totality and refusal-is-no-op (C06_seek_total). "
